@@ -101,6 +101,12 @@ bool load_key(Server &s, const TKey &k) {
     if (matrixSslLoadSessionTicketKeys(s.keys, k.name.data(), k.sym, (short) k.symlen, k.mac, 32) < 0) return false;
     s.tk.push_back(k); return true;
 }
+// KeyStore::fresh() may pre-load a default ticket key into server key sets; this check manages the key list itself
+void drop_preloaded_ticket_keys(sslKeys_t *k) {
+    unsigned char names[40][16]; int n = c14_ticket_key_names(k, names, 40);
+    for (int i = 0; i < n; i++) if (matrixSslDeleteSessionTicketKey(k, names[i]) != PS_SUCCESS) throw Discard{};
+    if (c14_ticket_key_names(k, names, 40) != 0) throw Discard{};
+}
 // library's key list must mirror the model's (sanity of the model, and of Load/Delete themselves)
 void check_key_list(World &w, const Server &s) {
     unsigned char names[40][16]; int n = c14_ticket_key_names(s.keys, names, 40);
@@ -192,16 +198,18 @@ int find_cred_by_secret(const World &w, const Bytes &s) { for (size_t i = 0; i <
 int find_cred_by_ident(const World &w, int kind, const Bytes &id) { for (size_t i = 0; i < w.creds.size(); i++) if (w.creds[i].kind == kind && w.creds[i].ident == id) return (int) i; return -1; }
 
 // After a completed handshake: which credential does the client hold now?  Creates the model record for a newly issued one.
-int harvest(World &w, sslSessionId_t *sid, int ci, Attempt &a, int issuer, const Hello &h) {
+int harvest(World &w, sslSessionId_t *sid, int ci, Attempt &a, int issuer, const Hello &h, const Bytes &pre = Bytes()) {
     struct { sslSessionId_t *sid; } k{ sid }; Pair &p = *a.p; unsigned char buf[4096];
     if (a.tls13) {
         int n = c14_sid_psk_id(k.sid, buf, sizeof buf); if (n <= 0 || n > (int) sizeof buf) return -1;
         Bytes id(buf, buf + n); int e = find_cred_by_ident(w, CK_PSK13, id); if (e >= 0) return e;
+        if (id == pre) return -1;   // no NewSessionTicket arrived: the sid still holds what was put there before the handshake
         Cred cr; cr.kind = CK_PSK13; cr.ident = id; cr.issuer = issuer; unsigned char key[64]; int kn = c14_sid_psk_key(k.sid, key, 64); cr.secret.assign(key, key + kn);
         cr.ver = TLS13; cr.suite = (uint16_t) c14_sid_psk_cipher(k.sid); cr.ems = false; cr.issue_ms = now_ms(); cr.life_ms = (int64_t) c14_sid_psk_lifetime(k.sid) * 1000;
-        cr.psk_snap = c14_psk_clone_from_sid(k.sid); cr.owner = ci;
+        cr.owner = ci;
         Server &s = issuer ? w.B : w.A; cr.key_uid = s.tk.empty() ? -1 : s.tk[0].uid;
         if (id.size() >= 16 && !s.tk.empty()) VF_CHECK(memcmp(id.data(), s.tk[0].name.data(), 16) == 0, "ticket-not-sealed-with-first-key", "TLS 1.3 ticket key name is not the first key's; %s", w.trace.c_str());
+        cr.psk_snap = c14_psk_clone_from_sid(k.sid);
         w.creds.push_back(cr); return (int) w.creds.size() - 1;
     }
     unsigned char ms[48]; c14_master_secret(p.s.ssl, ms);
@@ -209,6 +217,7 @@ int harvest(World &w, sslSessionId_t *sid, int ci, Attempt &a, int issuer, const
     int tn = c14_sid_ticket(k.sid, buf, sizeof buf);
     if (h.tickets && tn > 0 && tn <= (int) sizeof buf) {
         Bytes id(buf, buf + tn); int e = find_cred_by_ident(w, CK_TICKET, id); if (e >= 0) return e;
+        if (id == pre) return -1;
         cr.kind = CK_TICKET; cr.ident = id; Server &s = issuer ? w.B : w.A; cr.key_uid = s.tk.empty() ? -1 : s.tk[0].uid;
         if (!s.tk.empty()) VF_CHECK(tn >= 16 && memcmp(id.data(), s.tk[0].name.data(), 16) == 0, "ticket-not-sealed-with-first-key", "ticket key name is not the first key's; %s", w.trace.c_str());
         w.creds.push_back(cr); return (int) w.creds.size() - 1;
@@ -323,6 +332,7 @@ static void prop(Tape &t, Ctx &c) {
     w.auth = t.chance(1, 4) ? AUTH_EC : AUTH_RSA;
     w.A.keys = KeyStore::fresh(true, w.auth, true); w.ckeys = KeyStore::fresh(false, w.auth, false);
     if (!w.A.keys || !w.ckeys) throw Discard{};
+    drop_preloaded_ticket_keys(w.A.keys);
     if (matrixSslLoadPsk(w.A.keys, KeyStore::psk_key(), 16, KeyStore::psk_id(), 8) < 0 || matrixSslLoadPsk(w.ckeys, KeyStore::psk_key(), 16, KeyStore::psk_id(), 8) < 0) throw Discard{};
     size_t nkeys = 1 + t.below(3); if (t.chance(1, 12)) nkeys = 0;
     for (size_t i = 0; i < nkeys; i++) if (!load_key(w.A, make_key(w, t))) throw Discard{};
@@ -331,6 +341,7 @@ static void prop(Tape &t, Ctx &c) {
     auto need_B = [&]() {
         if (w.B.keys) return;
         w.B.keys = KeyStore::fresh(true, w.auth, true); if (!w.B.keys) throw Discard{};
+        drop_preloaded_ticket_keys(w.B.keys);
         // B's ticket key: other material; sometimes under the very name of A's sealing key
         bool same_name = !w.A.tk.empty() && t.coin();
         TKey k = make_key(w, t, same_name ? &w.A.tk[0].name : nullptr);
@@ -358,8 +369,9 @@ static void prop(Tape &t, Ctx &c) {
     };
 
     // one resume attempt by client ci presenting whatever its sid holds now (after optional edits already applied)
+    auto sid_ident = [&](sslSessionId_t *sid) { unsigned char b[4096]; int n = c14_sid_psk_id(sid, b, sizeof b); if (n <= 0) n = c14_sid_ticket(sid, b, sizeof b); if (n <= 0 || n > (int) sizeof b) return Bytes(); return Bytes(b, b + n); };
     auto do_attempt = [&](int ci, int base, Hello h, const std::string &what, std::string never_sig, bool binder_attack, bool honest, const Mitm &mitm, const std::string &ntkind, const bool *edited = nullptr) {
-        Client &k = w.cl[ci];
+        Client &k = w.cl[ci]; Bytes pre = sid_ident(k.sid);
         Attempt a = run_hs(w, w.A, k.sid, h, mitm);
         if (edited && !*edited) { never_sig = ""; binder_attack = false; c.count("wire-edit-was-noop"); }   // nothing to edit in this hello (e.g. no session id in a ticket resume)
         w.registrations++;
@@ -367,7 +379,7 @@ static void prop(Tape &t, Ctx &c) {
         if (a.tent) c.count(fmt("tentative:%s", ntkind.c_str()));
         judge(w, a, ci, base, h, never_sig, binder_attack, honest, what);
         int bound = -1;
-        if (a.outcome != O_FAILED) { int x = harvest(w, k.sid, ci, a, 0, h); k.cred = x; k.dirty = false; if (a.outcome == O_RESUMED) bound = find_cred_by_secret(w, a.tent_secret); else if (x >= 0 && w.creds[x].kind == CK_ID) bound = x; }
+        if (a.outcome != O_FAILED) { int x = harvest(w, k.sid, ci, a, 0, h, pre); k.cred = x; k.dirty = x < 0; if (a.outcome == O_RESUMED) bound = find_cred_by_secret(w, a.tent_secret); else if (x >= 0 && w.creds[x].kind == CK_ID) bound = x; }
         else k.dirty = true;
         bool interesting = !honest || w.pre_expiry || w.pre_fatal || w.pre_flood || w.pre_keyrm;
         if (interesting) { did_nontrivial = true; nontrivial_after(w, ntkind + (w.pre_expiry ? "+exp" : "") + (w.pre_fatal ? "+fatal" : "") + (w.pre_flood ? "+flood" : "") + (w.pre_keyrm ? "+keyrm" : ""), a.outcome); }
@@ -569,9 +581,9 @@ static void prop(Tape &t, Ctx &c) {
             if (ids.empty()) { c.count("cmd:tls13-victim-id-no-id"); continue; }
             tls13_victim_id(ids[t.below(ids.size())], (int) t.below(w.cl.size()));
         } else if (op < 86) {                             // ---- AdvanceClock
-            static const int64_t D[] = { 1000, 59000, 358000, 363000, 3600000, 0 /*LIFE-5s*/, 1 /*LIFE+5s*/, 90000000, 200000000 };
-            size_t i = t.below(9); int64_t dt = D[i]; if (i == 5) dt = LIFE - 5000; if (i == 6) dt = LIFE + 5000;
-            if (now_ms() + dt > 1000000 + 20LL * 86400000) { c.count("cmd:advance-clock-capped"); continue; }   // psDiffMsecs is an int32 of milliseconds: stay below its 24.8-day range
+            static const int64_t D[] = { 1000, 59000, 358000, 363000, 3600000, 0 /*LIFE-5s*/, 1 /*LIFE+5s*/, 90000000, 200000000, 2246400000LL /* 26 days: past the int32 range of psDiffMsecs */ };
+            size_t i = t.below(10); int64_t dt = D[i]; if (i == 5) dt = LIFE - 5000; if (i == 6) dt = LIFE + 5000;
+            if (now_ms() + dt > 1000000 + 45LL * 86400000) { c.count("cmd:advance-clock-capped"); continue; }   // stay below 2^32 ms (49.7 days), where a 32-bit millisecond difference is ambiguous for any implementation
             vfh_clock_advance_ms(dt); w.note(fmt("AdvanceClock(%llds)", (long long) (dt / 1000)));
             for (auto &cr : w.creds) if (expired(cr, 1000)) w.pre_expiry = true;
             c.count("cmd:advance-clock");
